@@ -110,11 +110,122 @@ def convert_raises(data):
     raise ConvertError("conversion failed on purpose")
 
 
+class WriteRefused(Exception):
+    pass
+
+
+def is_poison(data):
+    """data a refusing writer cannot serialise"""
+    if isinstance(data, bytes):
+        return b"\xee" in data
+    return "POISON" in repr(data)
+
+
+class Codec:
+    """A user format object whose BOUND METHODS serve as reader / writer /
+    info of a FileHandler, with every signature the base class supports: no
+    extra parameter, one named option, two options, **kwargs.  Module level
+    and plain attributes only, so that FileSet.map can pickle it."""
+
+    def __init__(self, refuse=False, tag="c1"):
+        self.refuse = refuse
+        self.tag = tag
+
+    def _guard(self, data):
+        if self.refuse and is_poison(data):
+            raise WriteRefused("this format cannot store the data")
+
+    # -- bytes ------------------------------------------------------------
+    def _read(self, file_info, strip=0, upper=False):
+        with open(file_info.path, "rb") as fh:
+            data = fh.read()[strip:]
+        return data.upper() if upper else data
+
+    def _write(self, data, file_info, header=b"", rev=False):
+        self._guard(data)
+        with open(file_info.path, "wb") as fh:
+            fh.write(header + (data[::-1] if rev else data))
+
+    def read_plain(self, file_info):
+        return self._read(file_info)
+
+    def read_one(self, file_info, strip=0):
+        return self._read(file_info, strip=strip)
+
+    def read_two(self, file_info, strip=0, upper=False):
+        return self._read(file_info, strip=strip, upper=upper)
+
+    def read_kw(self, file_info, **kwargs):
+        return self._read(file_info, **kwargs)
+
+    def write_plain(self, data, file_info):
+        self._write(data, file_info)
+
+    def write_one(self, data, file_info, header=b""):
+        self._write(data, file_info, header=header)
+
+    def write_two(self, data, file_info, header=b"", rev=False):
+        self._write(data, file_info, header=header, rev=rev)
+
+    def write_kw(self, data, file_info, **kwargs):
+        self._write(data, file_info, **kwargs)
+
+    # -- pickled objects ----------------------------------------------------
+    def pickle_read(self, file_info, **kwargs):
+        return pickle_reader(file_info, **kwargs)
+
+    def pickle_write(self, data, file_info, **kwargs):
+        self._guard(data)
+        pickle_writer(data, file_info, **kwargs)
+
+    # -- info ---------------------------------------------------------------
+    def info(self, file_info):
+        from typhon.files import FileInfo
+        return FileInfo(file_info.path, attr={"codec": self.tag})
+
+    def info_kw(self, file_info, **kwargs):
+        from typhon.files import FileInfo
+        return FileInfo(file_info.path, attr={"codec": self.tag})
+
+
+# variant -> (reader, writer, read options, write options); names are
+# attributes of a Codec for the "method-" variants
 USER_VARIANTS = {
-    "bytes-args": (bytes_reader, bytes_writer),
-    "bytes-plain": (bytes_reader_plain, bytes_writer_plain),
-    "pickle": (pickle_reader, pickle_writer),
+    "bytes-args": (bytes_reader, bytes_writer,
+                   ("strip", "upper"), ("header", "rev")),
+    "bytes-plain": (bytes_reader_plain, bytes_writer_plain, (), ()),
+    "pickle": (pickle_reader, pickle_writer, ("key",), ("protocol",)),
+    "method-plain": ("read_plain", "write_plain", (), ()),
+    "method-one": ("read_one", "write_one", ("strip",), ("header",)),
+    "method-two": ("read_two", "write_two",
+                   ("strip", "upper"), ("header", "rev")),
+    "method-kw": ("read_kw", "write_kw",
+                  ("strip", "upper"), ("header", "rev")),
+    "method-kw-one": ("read_kw", "write_one",
+                      ("strip", "upper"), ("header",)),
+    "method-one-kw": ("read_one", "write_kw",
+                      ("strip",), ("header", "rev")),
+    "method-pickle": ("pickle_read", "pickle_write",
+                      ("key",), ("protocol",)),
 }
+# bound-method readers with exactly one parameter after file_info
+ONE_EXTRA_READERS = ("read_one", "read_kw", "pickle_read")
+
+
+def user_handler_parts(spec):
+    """(reader, writer, info) for FileHandler(...)"""
+    reader, writer = USER_VARIANTS[spec["variant"]][:2]
+    if not spec["variant"].startswith("method-"):
+        return reader, writer, None
+    codec = Codec(refuse=bool(spec.get("refuse")), tag="c1")
+    info = None
+    if spec.get("info"):
+        info = getattr(codec, spec["info"])
+    return getattr(codec, reader), getattr(codec, writer), info
+
+
+def is_pickle_variant(variant):
+    return variant in ("pickle", "method-pickle")
 
 
 # --------------------------------------------------------------------------
@@ -122,22 +233,18 @@ USER_VARIANTS = {
 # --------------------------------------------------------------------------
 def user_stored(variant, data, write_args):
     """bytes that must be in the (uncompressed) file"""
-    if variant == "bytes-args":
+    if not is_pickle_variant(variant):
         body = data[::-1] if write_args.get("rev") else data
         return write_args.get("header", b"") + body
-    if variant == "bytes-plain":
-        return data
     return pickle.dumps(data, protocol=write_args.get("protocol", 3))
 
 
 def user_value(variant, stored, read_args, post, basename):
     """value fileset.read() must return for a file with these bytes"""
-    if variant == "bytes-args":
+    if not is_pickle_variant(variant):
         data = stored[read_args.get("strip", 0):]
         if read_args.get("upper"):
             data = data.upper()
-    elif variant == "bytes-plain":
-        data = stored
     else:
         data = pickle.loads(stored)
         if read_args.get("key") is not None:
